@@ -140,6 +140,18 @@ def run(ctx, rep):
             rep.fail("oracle", "probe-sequence", inp, {"sent": [(p, d.hex(), t) for p, d, t in probes][:8]})
         if target == "255.255.255.255" and not opts:
             rep.fail("oracle", "broadcast-option-not-set", inp, {})
+    # the DEFAULT mode (auto_connect=True): the device is queried before it is returned; a device that answered the probe is
+    # reported whether or not that query gets anywhere (generic appliance types cannot be refreshed at all; the simulated
+    # appliances accept the TCP connection and stay silent). V2 replies - a V3 device would need the cloud (C19)
+    v2 = [g for g in replies if g[1] == 2]
+    for g in (v2 if ctx.deep else v2[::3]):
+        dg = [(rng.randrange(0, 4000), g[0], 6445, g[7])]
+        st, devs, _, _ = S.run_impl(dg, auto_connect=True)
+        rep.case(("auto", g[2], g[3], g[4]), "auto-connect-" + ("ac" if g[4] == 0xAC else "other"))
+        want = [(g[0], g[3], g[1], g[4], int(g[4] == 0xAC), g[2], tuple(g[6]), tuple(g[5]))]
+        if st != 0 or devs != want:
+            rep.fail("oracle", "discover-raised" if st else "answering-device-not-reported:auto-connect",
+                     {"auto_connect": True, "dgrams": [(t, h, p, d.hex()) for t, h, p, d in dg]}, {"status": st, "reported": devs, "advertised": want})
     # repeated runs in one process: the same hosts answer every run and must be reported every run
     for rnd in range(ctx.n(6, 60)):
         group = [g for g in rng.sample(replies, 3)]
